@@ -217,3 +217,201 @@ Proof.
   intros H. apply lossLoop_ok in H; [|constructor]. destruct H as [H1 H2]. split; [assumption|].
   rewrite H2. tauto.
 Qed.
+
+(** * BaseURLs: baseURL i is "bu<i>/", and that element in a segment path selects pattern i *)
+
+Fixpoint allDigits (s : string) : bool :=
+  match s with EmptyString => true | String c t => isDigit c && allDigits t end.
+
+Lemma isDigit_digitChar d : 0 <= d <= 9 -> isDigit (digitChar d) = true.
+Proof. intros H. unfold isDigit. rewrite byteOf_digit by assumption. lia. Qed.
+
+Lemma itoaFuel_digits fuel : forall n acc, 0 <= n -> allDigits acc = true -> allDigits (itoaFuel fuel n acc) = true.
+Proof.
+  induction fuel as [|fuel IH]; intros n acc Hn Ha; cbn [itoaFuel]; [assumption|].
+  assert (Hd : allDigits (String (digitChar (n mod 10)) acc) = true)
+    by (cbn [allDigits]; rewrite isDigit_digitChar by lia; assumption).
+  destruct (n <? 10); [assumption|]. apply IH; [lia|assumption].
+Qed.
+
+Lemma itoaFuel_nonempty fuel n acc : itoaFuel (Datatypes.S fuel) n acc <> EmptyString.
+Proof.
+  revert n acc. induction fuel as [|fuel IH]; intros n acc.
+  - cbn [itoaFuel]. destruct (n <? 10); discriminate.
+  - change (itoaFuel (Datatypes.S (Datatypes.S fuel)) n acc) with
+      (let acc' := String (digitChar (n mod 10)) acc in if n <? 10 then acc' else itoaFuel (Datatypes.S fuel) (n / 10) acc').
+    cbn zeta. destruct (n <? 10); [discriminate|apply IH].
+Qed.
+
+Lemma digitsVal_itoa fuel : forall n acc,
+  0 <= n -> n < 10 ^ Z.of_nat fuel -> digitsVal (itoaFuel fuel n acc) 0 = digitsVal acc n.
+Proof.
+  induction fuel as [|fuel IH]; intros n acc Hn Hf.
+  - cbn [itoaFuel]. change (10 ^ Z.of_nat 0) with 1 in Hf. now replace n with 0 by lia.
+  - cbn [itoaFuel]. assert (Hm : 0 <= n mod 10 <= 9) by lia.
+    destruct (n <? 10) eqn:E.
+    + cbn [digitsVal]. rewrite isDigit_digitChar, byteOf_digit by assumption. f_equal. lia.
+    + rewrite IH; [|lia|rewrite Nat2Z.inj_succ, Z.pow_succ_r in Hf by lia; lia].
+      cbn [digitsVal]. rewrite isDigit_digitChar, byteOf_digit by assumption. f_equal. lia.
+Qed.
+
+Lemma itoa_nonneg n : 0 <= n ->
+  itoa n = itoaFuel (Datatypes.S (Z.to_nat (Z.log2 n))) n EmptyString.
+Proof. intros H. unfold itoa. destruct (n <? 0) eqn:E; [lia|reflexivity]. Qed.
+
+Lemma pow10_log2' n : 0 <= n -> n < 10 ^ Z.of_nat (Datatypes.S (Z.to_nat (Z.log2 n))).
+Proof.
+  intros Hn. destruct (Z.eq_dec n 0) as [->|]; [reflexivity|]. apply pow10_log2. lia.
+Qed.
+
+Lemma isDigit_not_sign c : isDigit c = true -> Ascii.eqb c "-" = false /\ Ascii.eqb c "+" = false /\ Ascii.eqb c "/" = false.
+Proof.
+  intros H. unfold isDigit in H.
+  repeat split; destruct (Ascii.eqb c _) eqn:E; try reflexivity; apply Ascii.eqb_eq in E; subst c; cbn in H; lia.
+Qed.
+
+(** strconv.Atoi reads back what %d wrote *)
+Lemma atoi_itoa n : 0 <= n < two63 -> atoi (itoa n) = Some n.
+Proof.
+  intros Hn. rewrite itoa_nonneg by lia.
+  pose proof (itoaFuel_digits (Datatypes.S (Z.to_nat (Z.log2 n))) n EmptyString ltac:(lia) eq_refl) as Hd.
+  pose proof (itoaFuel_nonempty (Z.to_nat (Z.log2 n)) n EmptyString) as Hne.
+  pose proof (digitsVal_itoa (Datatypes.S (Z.to_nat (Z.log2 n))) n EmptyString ltac:(lia) (pow10_log2' n ltac:(lia))) as Hv.
+  destruct (itoaFuel (Datatypes.S (Z.to_nat (Z.log2 n))) n EmptyString) as [|c t] eqn:Es; [congruence|].
+  cbn [allDigits] in Hd. apply andb_prop in Hd. destruct Hd as [Hc _].
+  destruct (isDigit_not_sign c Hc) as (Hm & Hp & _).
+  unfold atoi. rewrite Hm, Hp. rewrite Hv. cbn [digitsVal].
+  destruct ((- two63 <=? n) && (n <? two63)) eqn:E; [reflexivity|unfold two63 in *; lia].
+Qed.
+
+Fixpoint noSlash (s : string) : bool :=
+  match s with EmptyString => true | String c t => negb (Ascii.eqb c "/") && noSlash t end.
+
+Lemma allDigits_noSlash s : allDigits s = true -> noSlash s = true.
+Proof.
+  induction s as [|c t IH]; [reflexivity|]. cbn [allDigits noSlash]. intros H.
+  apply andb_prop in H. destruct H as [Hc Ht]. destruct (isDigit_not_sign c Hc) as (_ & _ & ->). cbn. now apply IH.
+Qed.
+
+Lemma splitOn_nonempty sep s : splitOn sep s <> [].
+Proof.
+  destruct s as [|c t]; cbn [splitOn]; [discriminate|].
+  destruct (Ascii.eqb c sep); [discriminate|]. destruct (splitOn sep t); discriminate.
+Qed.
+
+Lemma splitOn_app s1 s2 : noSlash s1 = true ->
+  splitOn "/" (s1 ++ String "/" s2) = s1 :: splitOn "/" s2.
+Proof.
+  induction s1 as [|c t IH]; intros H.
+  - reflexivity.
+  - cbn [noSlash] in H. apply andb_prop in H. destruct H as [Hc Ht].
+    change ((String c t ++ String "/" s2)%string) with (String c (t ++ String "/" s2)).
+    cbn [splitOn]. destruct (Ascii.eqb c "/"); [discriminate|]. rewrite IH by assumption. reflexivity.
+Qed.
+
+Lemma join_split s : joinWith "/" (splitOn "/" s) = s.
+Proof.
+  induction s as [|c t IH]; [reflexivity|]. cbn [splitOn].
+  pose proof (splitOn_nonempty "/" t) as Hne.
+  destruct (Ascii.eqb c "/") eqn:E.
+  - apply Ascii.eqb_eq in E. subst c. destruct (splitOn "/" t) as [|h r] eqn:Es; [congruence|].
+    change (joinWith "/" (EmptyString :: h :: r)) with (("" ++ "/" ++ joinWith "/" (h :: r))%string).
+    rewrite IH. reflexivity.
+  - destruct (splitOn "/" t) as [|h r] eqn:Es; [congruence|].
+    destruct r as [|x r'].
+    + cbn [joinWith] in *. now rewrite IH.
+    + change (joinWith "/" (String c h :: x :: r')) with (String c (h ++ "/" ++ joinWith "/" (x :: r'))%string).
+      change (joinWith "/" (h :: x :: r')) with ((h ++ "/" ++ joinWith "/" (x :: r'))%string) in IH.
+      now rewrite IH.
+Qed.
+
+Lemma sapp_assoc (a b c : string) : ((a ++ b) ++ c = a ++ (b ++ c))%string.
+Proof. induction a as [|x a IH]; [reflexivity|]. cbn. now rewrite IH. Qed.
+
+(** bu<i> as the first element of a segment path selects pattern i and is removed from the path *)
+Lemma extractPattern_baseURL i rest : 0 <= i < two63 ->
+  extractPattern ("/" ++ baseURL i ++ rest) = Ok (i, ("/" ++ rest)%string).
+Proof.
+  intros Hi. unfold baseURL, extractPattern.
+  replace (("/" ++ ("bu" ++ itoa i ++ "/") ++ rest)%string)
+    with (String "/" (("bu" ++ itoa i) ++ String "/" rest))
+    by (cbn; rewrite !sapp_assoc; reflexivity).
+  assert (Hd : allDigits (itoa i) = true)
+    by (rewrite itoa_nonneg by lia; apply itoaFuel_digits; [lia|reflexivity]).
+  cbn [splitOn]. change (Ascii.eqb "/" "/") with true. cbn iota.
+  rewrite splitOn_app by (cbn; now apply allDigits_noSlash).
+  change (prefixb "bu" ("bu" ++ itoa i)) with true. cbn [negb].
+  change (dropS 2 ("bu" ++ itoa i)) with (itoa i). rewrite atoi_itoa by assumption.
+  f_equal. f_equal.
+  pose proof (splitOn_nonempty "/" rest) as Hne. destruct (splitOn "/" rest) as [|h r] eqn:Es; [congruence|].
+  change (joinWith "/" (EmptyString :: h :: r)) with (("" ++ "/" ++ joinWith "/" (h :: r))%string).
+  rewrite <- Es, join_split. reflexivity.
+Qed.
+
+(** a path without such an element is left alone *)
+Lemma extractPattern_plain rep file :
+  prefixb "bu" rep = false -> noSlash rep = true ->
+  extractPattern ("/" ++ rep ++ "/" ++ file) = Ok (-1, ("/" ++ rep ++ "/" ++ file)%string).
+Proof.
+  intros Hp Hn. unfold extractPattern.
+  change (("/" ++ rep ++ "/" ++ file)%string) with (String "/" (rep ++ String "/" file)).
+  cbn [splitOn]. change (Ascii.eqb "/" "/") with true. cbn iota.
+  rewrite splitOn_app by assumption. rewrite Hp. reflexivity.
+Qed.
+
+Lemma seqZ_length a n : length (seqZ a n) = n.
+Proof. revert a; induction n; intros a; cbn [seqZ length]; [reflexivity|now rewrite IHn]. Qed.
+
+Lemma seqZ_nth n : forall a i d, (i < n)%nat -> nth i (seqZ a n) d = a + Z.of_nat i.
+Proof.
+  induction n as [|n IH]; intros a i d Hi; [lia|]. cbn [seqZ]. destruct i as [|i]; cbn [nth]; [lia|].
+  rewrite IH by lia. lia.
+Qed.
+
+(** The MPD offers one BaseURL per pattern: bu0/, bu1/, ... in order. *)
+Lemma mpdBaseURLs_spec traffic :
+  length (mpdBaseURLs traffic) = length traffic /\
+  forall i, (i < length traffic)%nat -> nth i (mpdBaseURLs traffic) EmptyString = baseURL (Z.of_nat i).
+Proof.
+  unfold mpdBaseURLs. split; [now rewrite map_length, seqZ_length|].
+  intros i Hi. rewrite (nth_indep _ EmptyString (baseURL 0)) by (now rewrite map_length, seqZ_length).
+  rewrite (map_nth baseURL). rewrite seqZ_nth by assumption. reflexivity.
+Qed.
+
+(** The request for a path below BaseURL i is decided by pattern i at second nowMS/1000. *)
+Lemma trafficStep_baseURL traffic i rest nowMS itvls :
+  0 <= i < two63 -> nthZ i traffic = Some itvls ->
+  trafficStep traffic ("/" ++ baseURL i ++ rest) nowMS =
+  match stateAt itvls (Z.quot nowMS 1000) with
+  | Panic s => TrPanic s
+  | Err _ => TrStatus 500 0
+  | Ok LNo => TrContinue ("/" ++ rest) 0
+  | Ok L404 => TrStatus 404 0
+  | Ok LSlow => TrContinue ("/" ++ rest) 2
+  | Ok LHang => TrStatus 503 10
+  | Ok LUnknown => TrStatus 500 0
+  end.
+Proof.
+  intros Hi Hn. unfold trafficStep. destruct traffic as [|t0 ts]; [discriminate|].
+  rewrite extractPattern_baseURL by assumption.
+  destruct (i >=? 0) eqn:E; [|lia]. rewrite Hn. reflexivity.
+Qed.
+
+(** * Witnesses *)
+
+(** a pattern without a state letter is accepted as an empty interval list; StateAt divides by its
+    cycle 0.  traffic_u10, offers bu1/ for it. *)
+Lemma empty_pattern_refuted :
+  createLossItvls (bytesOf "12") = Ok [] /\ createLossItvls [] = Ok [] /\
+  stateAt [] 3000 = Panic "LossItvls.StateAt: integer divide by zero" /\
+  createAllLossItvls (bytesOf "u10,") = Ok [[{| l_dur := 10; l_state := LNo |}]; []] /\
+  mpdBaseURLs [[{| l_dur := 10; l_state := LNo |}]; []] = ["bu0/"; "bu1/"] /\
+  trafficStep [[{| l_dur := 10; l_state := LNo |}]; []] "/bu1/V300/1498.m4s" 3000000
+    = TrPanic "LossItvls.StateAt: integer divide by zero".
+Proof. repeat split; vm_compute; reflexivity. Qed.
+
+(** a duration of 19 digits wraps the int: accepted with a negative duration *)
+Lemma loss_overflow_refuted :
+  createLossItvls (bytesOf "u9223372036854775808") = Ok [{| l_dur := -9223372036854775808; l_state := LNo |}] /\
+  createLossItvls (bytesOf "u18446744073709551617") = Ok [{| l_dur := 1; l_state := LNo |}].
+Proof. split; vm_compute; reflexivity. Qed.
